@@ -25,6 +25,12 @@ DELTAS = [1.0, 1.0, 1.0, 0.5, 2.0, 1.5, 0.25, 3.0]
 COEFS = [1.0, 1.0, 0.0, 0.5, 2.0, 3.0, 0.75]
 
 
+def delta_values():
+    """mostly the round values, sometimes any two-decimal value in [0.1, 4] (not float32-exact: 0.85, 1.45, 2.9, ...)"""
+    return st.one_of(st.sampled_from(DELTAS), st.sampled_from(DELTAS), st.sampled_from(DELTAS),
+                     st.integers(10, 400).map(lambda k: k / 100.0))
+
+
 def dyadic(lo, hi, grid=GRID):
     return st.integers(int(lo * grid), int(hi * grid)).map(lambda k: k / grid)
 
@@ -45,7 +51,7 @@ def _sym_matrix(draw, n):
 @st.composite
 def cat_specs(draw, kinds=("abs", "precomputed", "lev", "ordinal", "numerical"), delta=None, max_cats=6):
     kind = draw(st.sampled_from(list(kinds)))
-    d = delta if delta is not None else draw(st.sampled_from(DELTAS))
+    d = delta if delta is not None else draw(delta_values())
     if kind == "abs":
         return {"kind": "abs", "delta": d}
     if kind == "precomputed":
@@ -90,10 +96,10 @@ def dissim_specs(draw, kinds=("pos", "abs", "precomputed", "lev", "ordinal", "nu
         return _rescale(base, draw(st.sampled_from(EXTREME_DELTAS)))
     kind = draw(st.sampled_from(list(kinds)))
     if kind == "pos":
-        return {"kind": "pos", "delta": draw(st.sampled_from(DELTAS))}
+        return {"kind": "pos", "delta": draw(delta_values())}
     if kind != "combined":
         return draw(cat_specs(kinds=(kind,), max_cats=max_cats))
-    d = draw(st.sampled_from(DELTAS))
+    d = draw(delta_values())
     alpha = draw(st.sampled_from(COEFS))
     beta = draw(st.sampled_from(COEFS))
     if alpha == 0 and beta == 0:
